@@ -223,11 +223,11 @@ def run_lockstep(ctx: Ctx) -> None:
                     return _check_index_only(env, r, fill, mode)
                 _guard(ctx, "T13.index-only", f"{tag}:{op}:{desc}", IBm[op], f"op={op} {desc} {tag}", th)
             # averaging
-            for k in ((2,) if D == 3 else (2, (2, 1), 3)):
-                def thp(k=k):
-                    r = it.method(b, "avg_pool", k)
+            for k, kwp in (((2, {}),) if D == 3 else ((2, {}), ((2, 1), {}), (3, {}))):  # (Grid.pool supports the default stride only)
+                def thp(k=k, kwp=kwp):
+                    r = it.method(b, "avg_pool", k, **kwp)
                     return _check_ramp(env, r)
-                _guard(ctx, "T13.ramp", f"{tag}:avg_pool:{k}", IBm["avg_pool"], f"op=avg_pool kernel={k} {tag}", thp)
+                _guard(ctx, "T13.ramp", f"{tag}:avg_pool:{k}:{kwp}", IBm["avg_pool"], f"op=avg_pool kernel={k} {kwp} {tag}", thp)
             # sampling on other grids
             _sample_obligations(ctx, env, tag, IBm["sample"])
             # interpolation flag pairing (own environment: sizes within the property's quantifier size / 2^levels >= 2)
